@@ -293,6 +293,9 @@ impl MachineState {
 
     #[inline(always)]
     pub(crate) fn check_for_interrupt(&mut self) -> bool {
+        #[cfg(feature = "verif_hooks")]
+        crate::machine::verif_hooks::interrupt::on_poll();
+
         if INTERRUPT.swap(false, atomic::Ordering::Relaxed) {
             self.throw_interrupt_exception();
             self.backtrack();
